@@ -11,7 +11,8 @@ THEOREMS = ["resolveCalled_frame", "uninlinable_left", "resolveCalled_frame_both
 RULE = (
     "generated modules (harness/capture.py) with one-line helpers (def and lambda): identity body, arithmetic, "
     "helper calling helpers, helper containing a nested lambda re-using its parameter name, helper taking a "
-    "sequence, a multi-statement function that cannot be inlined; called positionally, by keyword and re-ordered, "
+    "sequence, a multi-statement function that cannot be inlined, helpers that call a helper by keyword with their "
+    "own parameter (a call left in place inside an inlined body); called positionally, by keyword and re-ordered, "
     "with argument expressions over the schema; plus direct (lambda ...)(...) texts; non-trivial = body contains a "
     "helper call; distinct = distinct lambda body"
 )
@@ -29,6 +30,10 @@ TEXTS = [
     "(lambda x: s.Select(lambda y: x+y))(z)", "(lambda a, b: a - b)(1, b=2)", "(lambda a: a)(1, k=2)",
     "f((lambda a: a + 1)(2), (lambda: 3)())", "(lambda f: f(1))(lambda x: x + 1)", "(lambda x: x.y)(z).w",
     "(lambda x: (x for x in x))(q)", "(lambda x, y: (x, y))(y, x)",
+    # a call that cannot be inlined (keywords, wrong count) inside one that is, mentioning the outer parameter
+    "(lambda q: (lambda x: x + 1)(x=q))(z)", "(lambda q, a: (lambda x: x.n())(x=a.First()))(c, e.jets)",
+    "(lambda q: (lambda x, y: x + y)(q))(z)", "(lambda q: f((lambda x: x)(x=q), k=(lambda x: x)(q, 1)))(z)",
+    "(lambda q: s.Select(lambda j: (lambda x: x + j)(x=q)))(z)",
 ]
 
 
